@@ -1,10 +1,39 @@
 /-
-C05 — property theorems (first part; the invariant proofs over the step relation are in Inv*.lean).
+C05 — replicated data survives the loss of a minority of store nodes: the property theorems.
+
+All statements are about `run (boot n szs) os`: any number of nodes, any sequence of steps (writes
+incl. overwrites, commits on any quorum, catch-up, apply, flush begin / end, truncation, kill and
+restart of any node at any point between two steps, raft and meta elections). Three invariants
+carry them (InvAck, InvLog, InvData). Where the unchanged code does not satisfy the full statement
+the file keeps it as a `def … : Prop`, proves its negation from a concrete run (`decide`) and proves
+the `_partial` theorem under a decidable hypothesis on the steps that excludes exactly the defect
+class (`LogOK`, `DataOK`).
 -/
-import OG.C05.Model
+import OG.C05.Boot
 
 namespace OG.C05
 open OG.Gen.C05
+
+/-! ### answers to writers -/
+
+/-- Every answer a writer gets — ok or error — is about a committed entry that this writer
+proposed (never about another proposal, e.g. one of an earlier life of the node). -/
+theorem acked_is_committed (n : Nat) (szs : List Nat) (os : List Op) (s : State)
+    (h : run (boot n szs) os = some s) :
+    ∀ a ∈ s.acked, ∃ i e, entAt s.clog i = some e ∧ e.isW = true ∧ e.uid = a.1 := by
+  intro a ha
+  obtain ⟨i, e, h1, h2, h3, _⟩ := (ackInv_run (ackInv_boot n szs) h).acks a ha
+  exact ⟨i, e, h1, h2, h3⟩
+
+/-- A writer is answered `ok` only after the node it wrote to (the proposer, i.e. the master
+partition's node) applied its entry successfully. -/
+theorem acked_is_applied_on_leader (n : Nat) (szs : List Nat) (os : List Op) (s : State)
+    (h : run (boot n szs) os = some s) :
+    ∀ a ∈ s.acked, a.2 = true →
+      ∃ i e, entAt s.clog i = some e ∧ e.isW = true ∧ e.uid = a.1 ∧ (e.prop, i) ∈ s.ghostApplied := by
+  intro a ha hok
+  obtain ⟨i, e, h1, h2, h3, h4⟩ := (ackInv_run (ackInv_boot n szs) h).acks a ha
+  exact ⟨i, e, h1, h2, h3, h4 hok⟩
 
 /-- The writer is answered `ok` only if the local apply succeeded (dealCommitData hands the result
 of dealNormalData to the waiting writer). -/
@@ -18,12 +47,219 @@ theorem ack_ok_only_after_successful_apply (x : Node) (e : Ent) (n u : Nat) (ok 
     · cases h
   · cases h
 
-example : ackFor { pending := [(1, 7)] } { cmd := .write 1 2 0, prop := 0, ptag := lifeTag 1, pseq := 1 } 0 false = some (7, false) := by decide
+def mib : Nat := 1048576
 
-/-- The start-up replay reads the entries from the snapshot index (or 1) through the commit index. -/
-theorem replay_from_snapshot_through_commit (snap commit : Nat) :
-    replayRange snap commit = (if snap = 0 then 1 else snap, commit + 1) := by
-  unfold replayRange
-  by_cases h : snap = 0 <;> simp [h]
+/-- non-vacuity: a run in which a writer is answered ok, and one in which the apply fails on the
+proposer and the writer gets the error -/
+def ackRun (fail : Bool) : List Op := [
+  .raftLead 0, .commit 0 [0, 1, 2], .propose 0 (.write 7 42 0) 60, .commit 0 [0, 1],
+  .publish 0, .apply 0 false false, .apply 0 fail true]
+
+example : (run (boot 3 [6, 6, 6]) (ackRun false)).map (·.acked) = some [(1, true)] := by decide
+example : (run (boot 3 [6, 6, 6]) (ackRun true)).map (·.acked) = some [(1, false)] := by decide
+
+/-! ### truncation of the entry log -/
+
+/-- `truncate_safe`, full statement: along every run, every node still has the entry any member
+needs next, can replay from its own snapshot index, and no member was ever moved forward by a
+(dataless) snapshot. -/
+def TruncateSafe (s : State) : Prop :=
+  (∀ (a b : Nat) (x y : Node), s.nodes[a]? = some x → s.nodes[b]? = some y → x.first ≤ y.last + 1) ∧
+  (∀ (a : Nat) (x : Node), s.nodes[a]? = some x → (x.first ≤ 1 ∨ x.first ≤ x.snapIdx) ∧ x.holes = [])
+
+def truncate_safe_full : Prop :=
+  ∀ (n : Nat) (szs : List Nat) (os : List Op) (s : State), n < maxU64 → run (boot n szs) os = some s → TruncateSafe s
+
+/-- With the index rule of genProposeData (minimum Match of all members, file of the snapshot
+index) and the clamp of a ClearEntryLog entry to the node's own snapshot index, truncation by
+ClearEntryLog entries is safe — for every run in which the three truncation paths that do not look
+at the members' progress (forced, by size, raftlog.Init at a restart) strand nobody (`LogOK`). -/
+theorem truncate_safe_partial (n : Nat) (szs : List Nat) (os : List Op) (s : State) (hn : n < maxU64)
+    (hok : runOK LogOK (boot n szs) os = true) (h : run (boot n szs) os = some s) : TruncateSafe s := by
+  have hL := logInv_run (boot_inv n szs hn).1 hok h
+  exact ⟨hL.avail, fun a x hx => ⟨(hL.node a x hx).replayable, (hL.node a x hx).noHoles⟩⟩
+
+def availB (s : State) : Bool := s.nodes.all (fun x => s.nodes.all (fun y => decide (x.first ≤ y.last + 1)))
+
+/-- forced truncation (after the tolerate time the minimum Match is taken over the active members
+only): node 2 is down, two 20 MiB writes fill the first entry file, the leader flushes and truncates -/
+def forcedRun : List Op := [
+  .raftLead 0, .commit 0 [0, 1, 2], .kill 2, .metaDown 2,
+  .propose 0 (.write 1 1 0) (20 * mib), .commit 0 [0, 1], .propose 0 (.write 2 2 0) (20 * mib), .commit 0 [0, 1],
+  .publish 0, .apply 0 false false, .apply 0 false false, .apply 0 false true,
+  .flushBegin 0 0, .flushEnd 0 0,
+  .truncPropose true [(0, 6), (1, 6), (2, 3)], .commit 0 [0, 1], .publish 0, .apply 0 false true]
+
+theorem forcedRun_strands : (run (boot 3 [6, 6, 6]) forcedRun).map availB = some false := by decide
+
+/-- the same run is allowed by `LogOK` up to the forced truncation, which it refuses -/
+example : runOK LogOK (boot 3 [6, 6, 6]) (forcedRun.take 14) = true := by decide
+example : runOK LogOK (boot 3 [6, 6, 6]) forcedRun = false := by decide
+
+theorem truncate_safe_full_fails : ¬ truncate_safe_full := by
+  intro h
+  have hrun : ∃ s, run (boot 3 [6, 6, 6]) forcedRun = some s ∧ availB s = false := by
+    have := forcedRun_strands
+    cases hr : run (boot 3 [6, 6, 6]) forcedRun with
+    | none => rw [hr] at this; cases this
+    | some s => rw [hr] at this; exact ⟨s, rfl, by simpa using this⟩
+  obtain ⟨s, hs, hb⟩ := hrun
+  have hts := (h 3 [6, 6, 6] forcedRun s (by decide) hs).1
+  have : availB s = true := by
+    unfold availB
+    simp only [List.all_eq_true, decide_eq_true_eq]
+    intro x hx y hy
+    obtain ⟨a, ha⟩ := List.getElem?_of_mem hx
+    obtain ⟨b, hb'⟩ := List.getElem?_of_mem hy
+    exact hts a b x y ha hb'
+  rw [this] at hb; cases hb
+
+/-- non-vacuity of the partial theorem: a run with a real truncation (two entry files, the first one
+dropped on every node by a ClearEntryLog entry) that `LogOK` allows -/
+def truncRun : List Op := [
+  .raftLead 0, .commit 0 [0, 1, 2],
+  .propose 0 (.write 1 1 0) (20 * mib), .commit 0 [0, 1, 2], .propose 0 (.write 2 2 0) (20 * mib), .commit 0 [0, 1, 2],
+  .publish 0, .apply 0 false false, .apply 0 false false, .apply 0 false true, .flushBegin 0 0, .flushEnd 0 0,
+  .sync 1, .publish 1, .apply 1 false false, .apply 1 false false, .apply 1 false true, .flushBegin 1 0, .flushEnd 1 0,
+  .truncPropose false [(0, 6), (1, 6), (2, 6)], .commit 0 [0, 1, 2], .publish 0, .apply 0 false true,
+  .sync 1, .publish 1, .apply 1 false true]
+
+example : runOK LogOK (boot 3 [6, 6, 6]) truncRun = true := by decide
+example : (run (boot 3 [6, 6, 6]) truncRun).map (fun s => s.nodes.map (·.first)) = some [6, 6, 1] := by decide
+
+/-! ### what a node holds -/
+
+/-- `restart_replays_all` / `minority_loss_readable`, full statements -/
+def NodeExact (s : State) : Prop :=
+  ∀ (a : Nat) (x : Node), s.nodes[a]? = some x → x.up = true →
+    ∀ k, readNode s.clog x k = look s.clog k (idxRange 1 (x.applied + 1))
+
+def restart_replays_all_full : Prop :=
+  ∀ (n : Nat) (szs : List Nat) (os : List Op) (s : State), n < maxU64 → run (boot n szs) os = some s → NodeExact s
+
+/-- Every running node holds (data files ∪ table being flushed ∪ memtable) exactly the committed
+writes up to its applied index, last write per key — in particular right after a restart, where
+the applied index is the durable commit index: the replay from the snapshot index restores all of
+them. For runs with one shard per partition and no failing apply (`DataOK`), and `LogOK`. -/
+theorem restart_replays_all_partial (n : Nat) (szs : List Nat) (os : List Op) (s : State) (hn : n < maxU64)
+    (hok : runOK AllOK (boot n szs) os = true) (h : run (boot n szs) os = some s) : NodeExact s := by
+  obtain ⟨_, hD⟩ := inv_run (boot_inv n szs hn).1 (boot_inv n szs hn).2 hok h
+  intro a x hx hu k
+  exact ((hD.node a x hx).up hu).dataEq k
+
+/-- after a restart step the applied index is the durable commit index -/
+theorem restart_applied (clog : List Ent) (b : List Nat) (x : Node) :
+    (restartNode clog b x).applied = x.hsCommit ∧ (restartNode clog b x).up = true := by
+  simp [restartNode]
+
+def minority_loss_readable_full : Prop :=
+  ∀ (n : Nat) (szs : List Nat) (os : List Op) (s : State), n < maxU64 → run (boot n szs) os = some s →
+    ∀ (a : Nat) (x : Node), s.nodes[a]? = some x → x.up = true → x.applied = s.clog.length →
+      ∀ k, readNode s.clog x k = specRead s.clog k
+
+/-- Whatever nodes were killed and restarted, whenever, and whichever node ts-meta makes master:
+a node that has applied the committed log answers every key with its latest committed write — so
+every acknowledged write (it is committed: `acked_is_committed`) is readable with its latest value. -/
+theorem minority_loss_readable_partial (n : Nat) (szs : List Nat) (os : List Op) (s : State) (hn : n < maxU64)
+    (hok : runOK AllOK (boot n szs) os = true) (h : run (boot n szs) os = some s) :
+    ∀ (a : Nat) (x : Node), s.nodes[a]? = some x → x.up = true → x.applied = s.clog.length →
+      ∀ k, readNode s.clog x k = specRead s.clog k := by
+  intro a x hx hu hap k
+  have := restart_replays_all_partial n szs os s hn hok h a x hx hu k
+  rw [hap] at this
+  exact this
+
+/-- Which replica answers does not change the answer. -/
+theorem replica_choice_irrelevant (n : Nat) (szs : List Nat) (os : List Op) (s : State) (hn : n < maxU64)
+    (hok : runOK AllOK (boot n szs) os = true) (h : run (boot n szs) os = some s)
+    (a b : Nat) (x y : Node) (hx : s.nodes[a]? = some x) (hy : s.nodes[b]? = some y)
+    (hxu : x.up = true) (hyu : y.up = true) (hxa : x.applied = s.clog.length) (hya : y.applied = s.clog.length) :
+    ∀ k, readNode s.clog x k = readNode s.clog y k := by
+  intro k
+  rw [minority_loss_readable_partial n szs os s hn hok h a x hx hxu hxa k,
+    minority_loss_readable_partial n szs os s hn hok h b y hy hyu hya k]
+
+/-- A member that lags catches up from the log: the leader always has its next entry (no snapshot
+is ever needed), under `LogOK`. -/
+theorem catch_up_from_log (n : Nat) (szs : List Nat) (os : List Op) (s : State) (hn : n < maxU64)
+    (hok : runOK LogOK (boot n szs) os = true) (h : run (boot n szs) os = some s)
+    (l m : Nat) (lx x : Node) (hl : s.nodes[l]? = some lx) (hx : s.nodes[m]? = some x) :
+    x.last + 1 ≥ lx.first :=
+  (truncate_safe_partial n szs os s hn hok h).1 l m lx x hl hx
+
+/-! ### non-vacuity and the negations -/
+
+def readB (s : State) (a k : Nat) : Option (Option Nat × Option Nat × Bool) :=
+  match s.nodes[a]? with
+  | some x => some (readNode s.clog x k, specRead s.clog k, x.up && x.applied == s.clog.length)
+  | none => none
+
+/-- a run with an overwrite, a flush, a kill during the flush of a follower, restarts and a meta
+election, all allowed: every node answers the latest value -/
+def goodRun : List Op := [
+  .raftLead 0, .commit 0 [0, 1, 2],
+  .propose 0 (.write 1 10 0) 60, .commit 0 [0, 1, 2], .propose 0 (.write 1 11 0) 60, .commit 0 [0, 1],
+  .publish 0, .apply 0 false false, .apply 0 false false, .apply 0 false true,
+  .sync 1, .publish 1, .apply 1 false false, .apply 1 false false, .apply 1 false true,
+  .flushBegin 1 0, .kill 1, .restart 1,
+  .flushBegin 0 0, .flushEnd 0 0, .kill 0, .metaDown 0, .elect, .raftLead 1, .sync 2, .commit 0 [1, 2],
+  .restart 0, .sync 0, .publish 0, .apply 0 false true,
+  .sync 2, .publish 2, .apply 2 false false, .apply 2 false false, .apply 2 false false, .apply 2 false true]
+
+example : runOK AllOK (boot 3 [6, 6, 6]) goodRun = true := by decide
+example : (run (boot 3 [6, 6, 6]) goodRun).bind (fun s => readB s 0 1) = some (some 11, some 11, true) := by decide
+example : (run (boot 3 [6, 6, 6]) goodRun).bind (fun s => readB s 1 1) = some (some 11, some 11, false) := by decide
+example : (run (boot 3 [6, 6, 6]) goodRun).bind (fun s => readB s 2 1) = some (some 11, some 11, true) := by decide
+example : (run (boot 3 [6, 6, 6]) goodRun).map (·.master) = some 1 := by decide
+
+/-- two shards: the flush of shard 0 moves the snapshot index over the write of shard 1 -/
+def multishardRun : List Op := [
+  .raftLead 0, .commit 0 [0, 1, 2],
+  .propose 0 (.write 1 10 1) 60, .commit 0 [0, 1, 2], .propose 0 (.write 2 20 0) 60, .commit 0 [0, 1, 2],
+  .sync 1, .publish 1, .apply 1 false false, .apply 1 false false, .apply 1 false true,
+  .flushBegin 1 0, .flushEnd 1 0, .kill 1, .restart 1]
+
+theorem multishardRun_loses :
+    (run (boot 3 [6, 6, 6]) multishardRun).bind (fun s => readB s 1 1) = some (none, some 10, true) := by decide
+
+/-- the apply of a committed entry fails on a follower and is only logged -/
+def applyFailRun : List Op := [
+  .raftLead 0, .commit 0 [0, 1, 2], .propose 0 (.write 1 10 0) 60, .commit 0 [0, 1, 2],
+  .sync 1, .publish 1, .apply 1 false false, .apply 1 true true]
+
+theorem applyFailRun_loses :
+    (run (boot 3 [6, 6, 6]) applyFailRun).bind (fun s => readB s 1 1) = some (none, some 10, true) := by decide
+
+/-- the member stranded by `forcedRun` rejoins: raft moves it forward by a snapshot without rows -/
+def installRun : List Op := forcedRun ++ [.restart 2, .sync 2, .publish 2, .apply 2 false true]
+
+theorem installRun_loses :
+    (run (boot 3 [6, 6, 6]) installRun).bind (fun s => readB s 2 1) = some (none, some 1, true) := by decide
+
+theorem minority_loss_readable_full_fails : ¬ minority_loss_readable_full := by
+  intro h
+  have hw := multishardRun_loses
+  cases hr : run (boot 3 [6, 6, 6]) multishardRun with
+  | none => rw [hr] at hw; cases hw
+  | some s =>
+    rw [hr] at hw
+    simp only [Option.bind_some, readB] at hw
+    cases hx : s.nodes[1]? with
+    | none => rw [hx] at hw; cases hw
+    | some x =>
+      rw [hx] at hw
+      simp only [Option.some.injEq, Prod.mk.injEq, Bool.and_eq_true, beq_iff_eq] at hw
+      obtain ⟨h1, h2, h3, h4⟩ := hw
+      have := h 3 [6, 6, 6] multishardRun s (by decide) hr 1 x hx h3 h4 1
+      rw [h1, h2] at this
+      cases this
+
+theorem restart_replays_all_full_fails : ¬ restart_replays_all_full := by
+  intro h
+  apply minority_loss_readable_full_fails
+  intro n szs os s hn hr a x hx hu hap k
+  have := h n szs os s hn hr a x hx hu k
+  rw [hap] at this
+  exact this
 
 end OG.C05
